@@ -41,6 +41,10 @@ FLOORS = {"schedules": (1500, 40000), "switching_schedules": (1000, 30000), "opc
 COVER = {"scenarios": ["contexts-shared", "contexts-private", "inherit", "register-overloaded", "register-dataset", "evaluate-cached-unique", "evaluate-cached-equal"]}
 SHARDS_QUICK = 4
 TIMEOUT_QUICK = 1200
+TIMEOUT_THOROUGH = 3600
+# exploration stops widening once a shard has used this much wall-clock time (what was explored is counted and the floors
+# decide whether that is enough; the watchdog above is a separate, later line whose firing is inconclusive)
+BUDGET = {"quick": 700, "thorough": 2000}
 
 
 class T0(rt.Request):
@@ -393,10 +397,20 @@ def run(ctx):
     warmup(mine)
     bounds = {"op": (2, 3), "line": (2, 3), "opcode": (1, 2)}
     limits = {"op": (120, 1500), "line": (150, 2500), "opcode": (150, 2500)}
+    budget = BUDGET[ctx.tier]
+
+    def spent():
+        if ctx.elapsed() > budget:
+            ctx.count("stopped_widening_on_time_budget")
+            return True
+        return False
+
     for name in mine:
         for sseed in range(2 if ctx.quick else 4):
             seed = ctx.seed * 1000 + sseed + (ctx.shard // len(names)) * 100
             for gran in ("op", "line", "opcode"):
+                if sseed and spent():
+                    continue
                 k = bounds[gran][0 if ctx.quick else 1]
                 lim = limits[gran][0 if ctx.quick else 1]
                 before = len(ctx.violations)
@@ -413,7 +427,7 @@ def run(ctx):
                         break
                 if n_dfs >= lim // 2 and len(ctx.violations) == before:
                     for ch in S.spread_schedules(runner, k, lim - n_dfs, random.Random(f"{ctx.seed}:{name}:{gran}:{sseed}")):
-                        if len(ctx.violations) > before:
+                        if len(ctx.violations) > before or (sseed and ctx.elapsed() > budget):
                             break
                 else:
                     ctx.count("exhaustive_dfs_" + gran)
@@ -425,11 +439,11 @@ def run(ctx):
                         one_schedule(ctx, name, seed, gran, ch, focus=True)
 
                     for ch in S.spread_schedules(frunner, 2, 120 if ctx.quick else 1200, random.Random(f"f:{ctx.seed}:{name}:{gran}:{sseed}")):
-                        if len(ctx.violations) > before:
+                        if len(ctx.violations) > before or (sseed and ctx.elapsed() > budget):
                             break
                 # random schedules beyond the bound
                 for j in range(40 if ctx.quick else 600):
-                    if len(ctx.violations) > before:
+                    if len(ctx.violations) > before or (sseed and ctx.elapsed() > budget):
                         break
                     one_schedule(ctx, name, seed, gran, S.RandomChooser(random.Random(f"{ctx.seed}:{name}:{gran}:{sseed}:{j}"), p_switch=0.04 if gran == "opcode" else 0.12))
 
